@@ -443,11 +443,13 @@ func (s *socket) clearTransport() {
 // Possible reasons: `ping timeout`, `client error`, `parse error`,
 // `transport error`, `server close`, `transport close`
 func (s *socket) OnClose(reason string, description ...error) {
-	if s.ReadyState() != "closed" {
+	// Check and set in one step: two close causes arriving on two goroutines
+	// (timer, reader, writer, application) must not both pass the check, or the
+	// session emits two close events.
+	if prev, _ := s.readyState.Swap("closed").(string); prev != "closed" {
+		socket_log.Debug("readyState updated from %s to %s", prev, "closed")
 		utils.VerifYield("socket.OnClose.window", s.id, reason)
 		description = append(description, nil)
-
-		s.SetReadyState("closed")
 
 		// clear timers
 		utils.ClearTimeout(s.pingIntervalTimer.Load())
